@@ -281,8 +281,11 @@ def _one_doc(item):
             lines.append("  " + line)
         if not ok:
             expect_errors.add(name)
-    for e in extras:
-        lines.append(f"  {e}::1")
+    # an unknown field is written NAME or NAME=value text (default 1): falsy and empty values are fields too
+    extra_values = dict((e.split("=", 1) + ["1"])[:2] for e in extras)
+    extras = tuple(extra_values)
+    for e, val in extra_values.items():
+        lines.append(f"  {e}::{val}")
     if dup and lines:
         lines.append(lines[0])
     text = "===INST===\nSCH:\n" + "\n".join(lines) + "\n===END===\n" if lines else "===INST===\nSCH:\n  ZZ_PLACEHOLDER::1\n===END===\n"
@@ -318,7 +321,7 @@ def _one_doc(item):
 def doc_items(ctx: Ctx):
     for policy in ("REJECT", "WARN", "IGNORE", None, "BOGUS"):
         for choice in itertools.product(*[range(len(v)) for _, _, v in DOC_FIELDS]):
-            for extras in ((), ("EXTRA",), ("ZEXTRA", "AEXTRA")):
+            for extras in ((), ("EXTRA",), ("ZEXTRA", "AEXTRA"), ("NULLX=null",), ('EMPTYX=""', "FALSEX=false"), ("ZEROX=0", "LISTX=[]")):
                 for dup in (False, True):
                     yield (policy, choice, extras, dup)
 
